@@ -1545,10 +1545,18 @@ func orcRun(in gen.EditCase, res *run.Result, h orcHooks) {
 				step.PostCompileErr = err
 				consistent = false
 			} else {
-				a, b := proj.Graph(g2, proj.Opts{}).String(), proj.Graph(g3, proj.Opts{}).String()
+				pa, pb := proj.Graph(g2, proj.Opts{}), proj.Graph(g3, proj.Opts{})
+				a, b := pa.String(), pb.String()
 				if a != b {
-					step.PiDiff = proj.Diff(a, b)
-					consistent = false
+					if !step.SameGraph && pa.Sorted().String() == pb.Sorted().String() {
+						// the recompiled graph lists the same objects in another order: the text
+						// was re-formatted between the two compilations (formatter stability is
+						// judged separately); not a different diagram
+						res.Inc("pi_differs_only_in_listing_order")
+					} else {
+						step.PiDiff = proj.Diff(a, b)
+						consistent = false
+					}
 				}
 			}
 		}
